@@ -3,7 +3,7 @@ import Nstd.Callback.Model
 import Nstd.Callback.Spec
 /-
   Line protocol of the Callback area (property C12).  Universe of the harness: 3 emitters
-  with 2 signals each, 3 listeners with 2 slots each, script cells (listener, slot,
+  with 3 signals each, 3 listeners with 2 slots each, script cells (listener, slot,
   invocation# < 8) of at most 8 actions.
 
     reset
@@ -28,7 +28,7 @@ open Nstd.Common
 namespace Nstd.Callback
 
 def NE : Nat := 3
-def NG : Nat := 2
+def NG : Nat := 3
 def NL : Nat := 3
 def NS : Nat := 2
 def MAXK : Nat := 8
